@@ -8,6 +8,7 @@ import (
 	"slices"
 	"strings"
 	"sync"
+	"sync/atomic"
 	"time"
 
 	"github.com/gordian-engine/gordian/gexchange"
@@ -42,6 +43,11 @@ type Connection struct {
 	outgoingPrecommitProofs chan tmconsensus.PrecommitSparseProof
 
 	setConsensusHandlerRequests chan setConsensusHandlerRequest
+
+	// The consensus handler currently in effect, or nil.
+	// Read by the single, permanently registered topic validator,
+	// so that replacing the handler never leaves the topic without a validator.
+	consensusHandler atomic.Pointer[tmconsensus.ConsensusHandler]
 
 	wg sync.WaitGroup
 
@@ -107,7 +113,9 @@ func NewConnection(ctx context.Context, log *slog.Logger, h *Host, codec tmcodec
 func (c *Connection) background(ctx context.Context) {
 	defer c.wg.Done()
 
-	if err := c.h.PubSub().RegisterTopicValidator(topicConsensus, ignoreMessage); err != nil {
+	// One validator is registered for the lifetime of the connection.
+	// It ignores every message until a consensus handler is set.
+	if err := c.h.PubSub().RegisterTopicValidator(topicConsensus, c.validateConsensusMessage); err != nil {
 		c.log.Warn("Failed to initialize consensus topic validator", "err", err)
 	}
 
@@ -176,36 +184,16 @@ func (c *Connection) background(ctx context.Context) {
 			}
 
 		case req := <-c.setConsensusHandlerRequests:
-			// There is always a topic validator, so unregister the previous one.
-			if err := c.h.PubSub().UnregisterTopicValidator(topicConsensus); err != nil {
-				c.log.Warn("Failed to unregister previous topic validator for consensus messages", "err", err)
-			}
-
-			// NOTE: there is a potential race right here,
-			// where we temporarily have no topic validator set,
-			// between removing and replacing it.
-			//
-			// Unfortunately it doesn't look like there is a way to atomically swap the validator,
-			// nor is there an obvious way to leave the topic and
-			// instantaneously join it while setting a validator.
-			//
-			// Perhaps the alternative is to have a fixed method as the topic validator,
-			// and use sync/atomic to swap the handler.
-
+			// The topic validator stays registered and reads the handler atomically.
+			// Unregistering and re-registering a validator leaves a window
+			// in which pubsub forwards messages without any validation.
 			verifhook.Point(ctx, "tmlibp2p.sethandler.gap")
 
-			// Always reassign a topic validator.
 			if req.Handler == nil {
-				if err := c.h.PubSub().RegisterTopicValidator(topicConsensus, ignoreMessage); err != nil {
-					c.log.Warn("Failed to register consensus topic validator when clearing handler", "err", err)
-				}
+				c.consensusHandler.Store(nil)
 			} else {
-				if err := c.h.PubSub().RegisterTopicValidator(
-					topicConsensus,
-					c.libp2pConsensusMessageValidator(req.Handler),
-				); err != nil {
-					c.log.Warn("Failed to register topic validator for consensus messages", "err", err)
-				}
+				h := req.Handler
+				c.consensusHandler.Store(&h)
 			}
 
 			close(req.Ready)
@@ -217,6 +205,20 @@ func (c *Connection) background(ctx context.Context) {
 // This is useful as a default strategy before (*Connection).SetConsensusHandler is called.
 func ignoreMessage(context.Context, peer.ID, *pubsub.Message) pubsub.ValidationResult {
 	return pubsub.ValidationIgnore
+}
+
+// validateConsensusMessage is the pubsub validator for the consensus message topic.
+// It ignores the message if no consensus handler is currently set,
+// and otherwise defers to the validator for the current handler.
+func (c *Connection) validateConsensusMessage(
+	ctx context.Context, id peer.ID, msg *pubsub.Message,
+) pubsub.ValidationResult {
+	hp := c.consensusHandler.Load()
+	if hp == nil {
+		return ignoreMessage(ctx, id, msg)
+	}
+
+	return c.libp2pConsensusMessageValidator(*hp)(ctx, id, msg)
 }
 
 // libp2pConsensusMessageValidator returns a pubsub validator for the consensus message topic.
